@@ -14,7 +14,7 @@ from gen import A, C, N, call, fcall, lam, mcall
 
 ID = "C18"
 TAG, EXTRACT, DRIVER = sc.TAG, sc.EXTRACT, sc.DRIVER
-COQ_FILES = ["FA/Proofs/SimplifyFacts.v", "FA/Proofs/SimplifyPkg.v", "FA/Proofs/SimplifyTotal.v", "FA/Properties/C18.v"]
+COQ_FILES = ["FA/Proofs/SimplifyFacts.v", "FA/Proofs/SimplifyPkg.v", "FA/Proofs/SimplifyTotal.v", "FA/Proofs/SimplifyFuel.v", "FA/Properties/C18.v"]
 
 LEVEL = ("Coq theorem simp_no_crash over the executable model of simplify_chained_calls: on every well-formed query, for every fuel, "
          "stack and counter, the result is never a Crash, an Ok result is again well-formed and contains no raw (malformed) slot, and "
